@@ -29,7 +29,9 @@ Keyed/Indexed collections and reflected types are not modelled.
 Deviations of the code from property C13 are carried explicitly, one flag each (`Dev`): `Dev.before` is the
 code as it was when the family was built (every deviation on), `Dev.current` the code as it is now — the
 eight repaired deviations off (/repo 18e5d18 076ef8c a7f7cdd 0eb0265 f263838 99212c8 52aa03a), the pinned
-inclusive reading of slices still on —, `Dev.fixed` has every deviation off. -/
+inclusive reading of slices and DelOne's return at a parent without the member (`delOneAbsent`, found later) still
+on —, `Dev.fixed` has every deviation off. (One more deviation of the code as it is lives outside `Dev`, in the
+driver's reading of the path: `$` inside a final filter of Modify/Remove, Driver.lean `currentT`.) -/
 namespace OjgVerif.JPMut
 open OjgVerif OjgVerif.JPath
 
